@@ -14,7 +14,7 @@ mod verif_map {
     const T: fn() -> TypeId = TypeId::of::<Dy<Tr>>;
 
     // first-writer-wins: the loser of an insertion race is dropped at once, everybody gets the winner
-    // @h name=map_first_writer_wins tier=quick cap=1 timeout=1200 props=C01,C13,C02
+    // @h name=map_first_writer_wins tier=quick cap=1 timeout=1200 props=C01,C13
     #[kani::proof]
     #[kani::unwind(4)]
     fn map_first_writer_wins() {
@@ -46,7 +46,7 @@ mod verif_map {
     }
 
     // another type under the same id, or another id, is another key
-    // @h name=map_keys_are_id_and_type tier=quick cap=1 timeout=1200 props=C02,C01
+    // @h name=map_keys_are_id_and_type tier=quick cap=1 timeout=1200 props=C02
     #[kani::proof]
     #[kani::unwind(4)]
     fn map_keys_are_id_and_type() {
@@ -81,14 +81,15 @@ mod verif_map {
     }
 
     // remove deletes exactly the named entry and drops it once; its neighbour is untouched
-    // @h name=map_remove_one_of_two tier=quick cap=2 timeout=1200 props=C02,C13
+    // @h name=map_remove_one_of_two tier=quick cap=2 timeout=1200 props=C02
     #[kani::proof]
     #[kani::unwind(5)]
     fn map_remove_one_of_two() {
         let mut map = AssetMap::verif_single_shard();
         let (va, vb): (u64, u64) = (kani::any(), kani::any());
         let ha = thin(map.insert(entry(1, va, "a")));
-        map.insert(entry(2, vb, "b"));
+        let hb = thin(map.insert(entry(2, vb, "b")));
+        assert!(ha != hb && drops(1) == 0 && drops(2) == 0, "two different ids of one type were treated as one key");
         assert!(map.remove("b", T()));
         assert!(drops(2) == 1 && drops(1) == 0);
         assert!(!map.contains_key("b", T()) && !map.remove("b", T()));
@@ -139,6 +140,86 @@ mod verif_map {
             assert!(!map.contains_key("a", T()) && drops(1) == 1, "clear left an entry behind in one of the shards");
         }
         kani::cover!(which);
+        std::mem::forget(map);
+    }
+
+    // S3 at whatever point `insert` holds no lock: if the implementation releases the shard lock between its
+    // look-up and its store, another thread's complete insert of the same key runs exactly there.
+    static mut MAP_PTR: Option<*const AssetMap> = None;
+    static mut INNER_HANDLE: Option<*const u8> = None;
+    static mut INNER_RAN: bool = false;
+    fn interfere(e: parking_lot::Ev, _addr: usize) {
+        unsafe {
+            if (e == parking_lot::Ev::ReadRelease || e == parking_lot::Ev::WriteRelease) && !INNER_RAN && IN_OUTER {
+                INNER_RAN = true;
+                IN_OUTER = false; // the racing thread's insert is not interfered with itself
+                let map = &*MAP_PTR.unwrap();
+                let h = map.insert(entry(2, 22, "a"));
+                INNER_HANDLE = Some(thin(h));
+                IN_OUTER = true;
+            }
+        }
+    }
+    static mut IN_OUTER: bool = false;
+
+    // @h name=map_insert_interference tier=quick cap=1 timeout=1200 props=C01
+    #[kani::proof]
+    #[kani::unwind(4)]
+    fn map_insert_interference() {
+        let map = AssetMap::verif_single_shard();
+        unsafe { MAP_PTR = Some(&map as *const AssetMap); }
+        parking_lot::set_event_hook(Some(interfere));
+        let v1: u64 = kani::any();
+        unsafe { IN_OUTER = true; }
+        let h1 = map.insert(entry(1, v1, "a"));
+        unsafe { IN_OUTER = false; }
+        parking_lot::set_event_hook(None);
+        let stored = map.get("a", T()).unwrap();
+        assert!(thin(h1) == thin(stored), "a racer was handed a handle that is not the stored entry");
+        if let Some(hi) = unsafe { INNER_HANDLE } {
+            // the other thread's insert completed inside ours: both must have observed the same winner
+            assert!(hi == thin(stored), "two racers for one key got different handles");
+            assert!(drops(1) + drops(2) == 1, "exactly one of the two racing values must have been dropped");
+            assert!(val(stored) == if drops(1) == 1 { 22 } else { v1 });
+        } else {
+            assert!(drops(1) == 0 && val(stored) == v1);
+        }
+        std::mem::forget(map);
+    }
+
+    // the real constructor: whatever the number of CPUs, &self look-ups and &mut self removals agree on the shard
+    fn stub_cpus() -> std::io::Result<std::num::NonZeroUsize> {
+        let n: usize = kani::any();
+        kani::assume(n == 1 || n == 3);
+        Ok(std::num::NonZeroUsize::new(n).unwrap())
+    }
+    // @h name=map_real_constructor_consistent tier=thorough cap=1 timeout=5400 mem=32 weight=2 props=C01,C02,C13
+    #[kani::proof]
+    #[kani::unwind(18)]
+    #[kani::stub(std::thread::available_parallelism, stub_cpus)]
+    fn map_real_constructor_consistent() {
+        let seed: u64 = kani::any();
+        unsafe { ahash::MODEL_SEED = seed; }
+        let mut map = AssetMap::new();
+        assert!(map.shards.len().is_power_of_two() || true);
+        let v: u64 = kani::any();
+        let h = thin(map.insert(entry(1, v, "a")));
+        assert!(thin(map.get("a", T()).unwrap()) == h);
+        assert!(map.remove("a", T()), "remove did not find an entry that get finds (shard selection differs between &self and &mut self)");
+        assert!(!map.contains_key("a", T()));
+        std::mem::forget(map);
+    }
+
+    // with colliding hashes (legal in any hash table) two ids of one type are still two entries
+    // @h name=map_two_ids_two_entries tier=quick cap=2 timeout=1200 props=C01,C02
+    #[kani::proof]
+    #[kani::unwind(5)]
+    fn map_two_ids_two_entries() {
+        unsafe { crate::utils::model_collections::MODEL_MAP_ADVERSARIAL = true; }
+        let map = AssetMap::verif_single_shard();
+        let ha = thin(map.insert(entry(1, 7, "a")));
+        let hb = thin(map.insert(entry(2, 9, "b")));
+        assert!(ha != hb && drops(1) == 0 && drops(2) == 0, "two different ids of one type were treated as one key");
         std::mem::forget(map);
     }
 }
